@@ -21,7 +21,7 @@ type c17 struct{}
 func (c17) ID() string    { return "C17" }
 func (c17) Level() string { return "exploration" }
 func (c17) Rule() string {
-	return "full product of {explicit name: unset, ok, invalid x2} x {COMPOSE_PROJECT_NAME: absent | via WithEnv, OS, .env; valid or invalid} x {name: in none/first/last/both of two files or a second --- document} x {name text: literal, ${VAR} set, ${VAR} unset, mixed case, normalises to empty} x {directory base name: plain, upper+dot, leading symbol, unicode, normalises to empty}, loaded through cli.NewProjectOptions/LoadProject; every string of length <= 3 (thorough: 4) over 8 character classes (lower, upper, digit, _, -, ., @, non-ASCII) as directory base name, as literal file name and as COMPOSE_PROJECT_NAME (explicit environment, .env); and a variable defined in every non-empty subset of {WithEnv, OS environment, .env #1, .env #2} under all 8 documented option orders, plus .env #2 values referencing a variable defined in each subset of the layers above. Reference = the precedence chains of Appendix A.4. distinct = distinct (configuration class, outcome) pairs"
+	return "full product of {explicit name: unset, ok, invalid x2} x {COMPOSE_PROJECT_NAME: absent | via WithEnv, OS, .env; valid or invalid} x {name: in none/first/last/both of two files or a second --- document} x {name text: literal, ${VAR} set, ${VAR} unset, mixed case, normalises to empty} x {directory base name: plain, upper+dot, leading symbol, unicode, normalises to empty}, loaded through cli.NewProjectOptions/LoadProject; every string of length <= 3 (thorough: 4) over 8 character classes (lower, upper, digit, _, -, ., @, non-ASCII) as directory base name, as literal file name and as COMPOSE_PROJECT_NAME (explicit environment, .env); and a variable that each of {WithEnv, OS environment, .env #1, .env #2} leaves undefined, defines, or defines as the empty string (all 80 state vectors) under all 8 documented option orders, observed through ${V-unset}, plus .env #2 values referencing that variable. Reference = the precedence chains of Appendix A.4. distinct = distinct (configuration class, outcome) pairs"
 }
 func (c17) Assumptions() []string {
 	return []string{
